@@ -46,6 +46,17 @@ CHECKS = {
    text="TLC enumerates every nesting of Composite / Inverse up to depth 2 (atoms may repeat) and proves the algebraic laws of the denotation, and every multiscale configuration (rank <= 3, every split dimension, 1-3 stages, odd and even sizes) proving routing bijectivity, stage prefixes and that the inverse undoes the routing. Each state is replayed: real programs against hand-chained shared atoms (outputs and log-det sums, float64 1e-10), real multiscale transforms with prime-scaled affine stage tags against the exact value the specification's routing predicts for every coordinate, the log-det sum, the round trip and the inverse of an arbitrary flat vector.",
    design_ref="DESIGN.md section 4, C08",
    note="Bounded nesting depth / shape sizes. " + TRUSTED),
+
+ "C18": dict(
+   technique="TLA+ transcription of the Distribution / Flow interface over tensor views (spec/DistApi.tla, Tensor.tla) model-checked by TLC over all argument tokens; every enumerated call executed on the real classes (shape / exception class / context row behind every draw)",
+   text="TLC enumerates sample / log_prob / sample_and_log_prob calls over count tokens (-1..5, float, str, None), batch sizes dividing or not, 0..3 context rows, and proves the shape, placement, error and pairing contracts for the repaired design (and derives the shape violation of the pinned design that concatenated batches on dim 0). Every call is executed on 13 real distributions and flows; outcome class and shape must be the specification's, and context-marker models must show every draw under the context row the specification's provenance map names.",
+   design_ref="DESIGN.md section 4, C18",
+   note="Bool counts are ints for Python and outside the token set; distributional equality of batched generation is reduced to per-draw provenance. " + TRUSTED),
+ "C04": dict(
+   technique="TLA+ pairing / placement properties of spec/DistApi.tla model-checked by TLC; every enumerated sampling call executed on real flows with the harness pairing draw (i,j) with context row i itself; context markers and a harness-controlled random stream (push-forward identity)",
+   text="RowPairing / RowPlacement are proved on the specification for all draw counts and context rows. On 13 real flows and distributions (with / without embedding network, conditional bases, unconditional coupling transforms) the log-prob returned by sample_and_log_prob must equal log_prob of the returned sample under context row i, markers reveal the row behind each draw, and with torch.randn replaced by a known stream the sample must equal T^-1(mean_i + std_i z).",
+   design_ref="DESIGN.md section 4, C04",
+   note="The statistical clause (empirical distribution converges) is not decided by this technique; it is replaced by the push-forward identity under a controlled generator plus C03/C05; torch's generators are trusted. " + TRUSTED),
 }
 REASONS = {}
 
